@@ -272,8 +272,8 @@ def _chunk_class(ctx, rep, ci):
                 owner_calls.append(n)
         if owner_calls:
             creators.append((fn, owner_calls))
-        if any('_iterchunk' in norm(n.func) for n in own_nodes(fn.node) if isinstance(n, ast.Call)):
-            readers.append(fn)
+        if any(isinstance(n, ast.Name) and n.id == '_iterchunk' for n in own_nodes(fn.node)):
+            readers.append(fn)          # called directly, or handed to map()
     if real and (not creators or len(readers) < 2):
         raise AnalysisError('anchor vanished: chunk creator / readers of %s' % ci.fq)
     cache_attr = None
